@@ -32,3 +32,29 @@ H long h_redge_eq(const long* c1, long n1, const long* c2, long n2) {
   ReducedEdge r1(std::vector<votca::Index>(c1, c1 + n1)), r2(std::vector<votca::Index>(c2, c2 + n2));
   return (r1 == r2) ? 1 : 0;
 }
+
+#ifdef VERIF_NATIVE
+#include <cstdio>
+#include <cstring>
+#include <cstdlib>
+int main(int argc, char** argv) {
+  if (argc > 1 && !strcmp(argv[1], "edge")) {
+    long o[9]; h_edge(atol(argv[2]), atol(argv[3]), atol(argv[4]), atol(argv[5]), o);
+    for (int i = 0; i < 9; i++) printf("%ld ", o[i]); printf("\n"); return 0;
+  }
+  if (argc > 1 && !strcmp(argv[1], "redge_eq")) {
+    long n1 = atol(argv[2]); long c1[16], c2[16];
+    for (long i = 0; i < n1; i++) c1[i] = atol(argv[3 + i]);
+    long n2 = atol(argv[3 + n1]);
+    for (long i = 0; i < n2; i++) c2[i] = atol(argv[4 + n1 + i]);
+    printf("%ld\n", h_redge_eq(c1, n1, c2, n2)); return 0;
+  }
+  if (argc > 1 && !strcmp(argv[1], "redge")) {
+    long n = atol(argv[2]); long c[16], ch[16], ed[32];
+    for (long i = 0; i < n; i++) c[i] = atol(argv[3 + i]);
+    long k = h_redge(c, n, ch, ed);
+    printf("%ld", k); for (long i = 0; i < n; i++) printf(" %ld", ch[i]); for (long i = 0; i < 2 * k; i++) printf(" %ld", ed[i]); printf("\n"); return 0;
+  }
+  return 2;
+}
+#endif
